@@ -1,7 +1,143 @@
-/- C20 bloom-filter ops of the line protocol (ops `bloom…`). Core-only. Stub until Bloom.lean lands. -/
+/- C20 bloom-filter ops of the line protocol (ops `bloom…`). Core-only.
+
+  bloommm <seed> <hex>                                   raw MurmurHash3 → decimal
+  bloom <filter> <hashFuncs> <tweak> <flags> <ops>       LoadFilter + op sequence
+     filter : nil (LoadFilter(nil)) | - (empty) | hex | z<N> (N zero bytes)
+     ops    : `.` (none) or `;`-separated
+        a:<hex>  m:<hex>  ao:<hash32>:<index>  mo:<hash32>:<index>
+        tx:<rawtx>:<txid>:<outs>:<ins>     (rawtx is for the Go side; the rest is the abstract view)
+           outs = `.` | out,out,…   out = <k|o>/<pushes>       k = pubkey or multisig script class
+           ins  = `.` | in,in,…     in  = <prevhash>/<previndex>/<pushes>
+           pushes = `!` (PushedData error) | `.` (no push) | hex+hex+…   (`-` = empty push)
+  bloomnew <elements> <fprate float64 bits, hex> <tweak> <flags> <size> <hashFuncs> <ops>
+     Go: NewFilter(elements, tweak, fprate, flags) must have exactly <size>/<hashFuncs> (observed by the
+     generator; the float64 sizing is not modelled) and stay within the wire limits; then the ops.
+  answer: r=<one 0/1 per m/mo/tx op | -> f=<hex | - | nil | len:<n>:sha256> k=<hashFuncs> t=<tweak> fl=<flags>
+-/
+import BV.Common.Hex
+import BV.Common.Sha256
+import BV.Common.Murmur3
+import BV.C20.Bloom
 namespace BV.C20.DriverBloom
+open BV.Hex BV.C20.Bloom
+
+def murmur : UInt32 → Bytes → UInt32 := BV.Murmur3.hash
+
+/-- hash-function counts above this are rejected by both sides (4·10^9 murmur calls are no test) -/
+def maxFuncs : Nat := 100000
+
+def u32? (s : String) : Option UInt32 :=
+  match s.toNat? with
+  | some n => if n < 2 ^ 32 then some (UInt32.ofNat n) else none
+  | none => none
+
+def parseFilterBits? (s : String) : Option Bytes :=
+  if s.startsWith "z" then
+    match (s.drop 1).toString.toNat? with
+    | some n => if n ≤ 1000000 then some (List.replicate n 0) else none
+    | none => none
+  else hexToList? s
+
+def parsePushes? (s : String) : Option (Option (List Bytes)) :=
+  if s == "!" then some none
+  else if s == "." then some (some [])
+  else ((s.splitOn "+").mapM hexToList?).map some
+
+def parseOut? (s : String) : Option TxOut :=
+  match s.splitOn "/" with
+  | [c, p] =>
+    match parsePushes? p with
+    | some ps => if c == "k" then some ⟨ps, true⟩ else if c == "o" then some ⟨ps, false⟩ else none
+    | none => none
+  | _ => none
+
+def parseIn? (s : String) : Option TxIn :=
+  match s.splitOn "/" with
+  | [hh, i, p] =>
+    match hexToList? hh, u32? i, parsePushes? p with
+    | some hh, some i, some ps => if hh.length = 32 then some ⟨hh, i, ps⟩ else none
+    | _, _, _ => none
+  | _ => none
+
+def parseList? {α} (f : String → Option α) (s : String) : Option (List α) :=
+  if s == "." then some [] else (s.splitOn ",").mapM f
+
+inductive Op where
+  | add (d : Bytes)
+  | mat (d : Bytes)
+  | addOp (hh : Bytes) (i : UInt32)
+  | matOp (hh : Bytes) (i : UInt32)
+  | tx (t : Tx)
+
+def parseOp? (s : String) : Option Op :=
+  match s.splitOn ":" with
+  | ["a", d] => (hexToList? d).map .add
+  | ["m", d] => (hexToList? d).map .mat
+  | ["ao", hh, i] =>
+    match hexToList? hh, u32? i with
+    | some hh, some i => if hh.length = 32 then some (.addOp hh i) else none
+    | _, _ => none
+  | ["mo", hh, i] =>
+    match hexToList? hh, u32? i with
+    | some hh, some i => if hh.length = 32 then some (.matOp hh i) else none
+    | _, _ => none
+  | ["tx", _raw, txid, outs, ins] =>
+    match hexToList? txid, parseList? parseOut? outs, parseList? parseIn? ins with
+    | some txid, some outs, some ins => if txid.length = 32 then some (.tx ⟨txid, outs, ins⟩) else none
+    | _, _, _ => none
+  | _ => none
+
+def parseOps? (s : String) : Option (List Op) :=
+  if s == "." then some [] else (s.splitOn ";").mapM parseOp?
+
+/-- run the ops; `none` = Go panic -/
+def runOps : List Op → State → List Bool → Option (State × List Bool)
+  | [], s, acc => some (s, acc.reverse)
+  | .add d :: ops, s, acc => (add? murmur s d).bind (fun s' => runOps ops s' acc)
+  | .mat d :: ops, s, acc => (matches? murmur s d).bind (fun b => runOps ops s (b :: acc))
+  | .addOp hh i :: ops, s, acc => (addOutPoint? murmur s hh i).bind (fun s' => runOps ops s' acc)
+  | .matOp hh i :: ops, s, acc => (matchesOutPoint? murmur s hh i).bind (fun b => runOps ops s (b :: acc))
+  | .tx t :: ops, s, acc => (matchTxAndUpdate? murmur s t).bind (fun r => runOps ops r.2 (r.1 :: acc))
+
+def bitsTok (b : Bytes) : String :=
+  if b.length ≤ 128 then listToHexTok b
+  else s!"len:{b.length}:{listToHex (BV.Sha256.hashList b)}"
+
+def showState : State → String
+  | none => "f=nil"
+  | some f => s!"f={bitsTok f.bits} k={f.hashFuncs.toNat} t={f.tweak.toNat} fl={f.flags.toNat}"
+
+def resStr (l : List Bool) : String :=
+  if l.isEmpty then "-" else String.ofList (l.map (fun b => if b then '1' else '0'))
+
+def runLine (s0 : State) (ops : List Op) : String :=
+  match runOps ops s0 [] with
+  | none => "panic"
+  | some (s, rs) => s!"r={resStr rs} {showState s}"
 
 def handle : List String → String
-  | _ => "unimplemented"
+  | ["bloommm", sd, d] =>
+    match u32? sd, hexToList? d with
+    | some sd, some d => toString (murmur sd d).toNat
+    | _, _ => "bad-op"
+  | ["bloom", flt, k, t, fl, ops] =>
+    match k.toNat?, u32? t, fl.toNat?, parseOps? ops with
+    | some k, some t, some fl, some ops =>
+      if k ≥ 2 ^ 32 ∨ fl ≥ 256 then "bad-op" else
+      if k > maxFuncs then "skip" else
+      if flt == "nil" then runLine (load none) ops else
+      match parseFilterBits? flt with
+      | some bits => runLine (load (some ⟨bits, UInt32.ofNat k, t, UInt8.ofNat fl⟩)) ops
+      | none => "bad-op"
+    | _, _, _, _ => "bad-op"
+  | ["bloomnew", el, _fp, t, fl, size, k, ops] =>
+    match u32? el, u32? t, fl.toNat?, size.toNat?, k.toNat?, parseOps? ops with
+    | some _, some t, some fl, some size, some k, some ops =>
+      if fl ≥ 256 then "bad-op" else
+      if size > Spec.MAX_FILTER_SIZE ∨ k > Spec.MAX_HASH_FUNCS then "err:limits" else
+      -- NewFilter does not normalise: an empty field keeps its hash-function count
+      runLine (some ⟨List.replicate size 0, UInt32.ofNat k, t, UInt8.ofNat fl⟩) ops
+    | _, _, _, _, _, _ => "bad-op"
+  | _ => "bad-op"
 
 end BV.C20.DriverBloom
